@@ -376,6 +376,29 @@ func runC14(c *Ctx) {
 			if blockHasCall(b, calleeIs(cr)) {
 				reads = true
 			}
+			// ... or through a step of the reader (endOfData()) that makes that read before it returns
+			for _, in := range b.Instrs {
+				ci, isCall := in.(ssa.CallInstruction)
+				if !isCall {
+					continue
+				}
+				if h := core.StaticCallee(ci); h != nil && h != cr && c.P.InPkg(h, "wire") && h.Blocks != nil {
+					all := len(returns(h)) > 0
+					for _, hr := range returns(h) {
+						dom := false
+						for _, hc := range callsIn(h, calleeIs(cr)) {
+							if core.InstrDominates(hc.(ssa.Instruction), hr) {
+								dom = true
+							}
+						}
+						all = all && dom
+					}
+					if all {
+						reads = true
+						R.Analysed(fname(h))
+					}
+				}
+			}
 			if r, ok := b.Instrs[len(b.Instrs)-1].(*ssa.Return); ok {
 				cls := c.Err().Classify(errOperand(r), b)
 				if !core.IsNilConst(forwardLoad(r.Results[0])) || cls.MayBeNil() {
